@@ -144,6 +144,9 @@ func runC14(c *Ctx) {
 	c.Rule("O14.3", "both paths apply the same filter: IsChosenCase(ammo.Tag(), Config.ChosenCases)")
 	c.Rule("O14.4", "LoadAmmo is one unbounded pass and restores the bounds: Limit=0 and Passes=1 are forced before the scan loop and the saved values restored on every exit; ErrAmmoLimit is only returned under Limit != 0")
 	c.Rule("O14.5", "Release is a no-op under preload: the decoder's pool must not recycle ammo that stays in the preloaded ring")
+	c.Rule("O14.6", "a replayed entry yields the same request again: with preload the same decoded entries are delivered pass after pass, so BuildRequest of both entry types builds the request (and its body reader) anew from the entry's fields on every call - it does not hand out a request kept in the entry or a Clone of one (Clone shares the Body, which the first delivery has consumed)")
+	freshRequestRule(c, "O14.6", "Ammo")
+	freshRequestRule(c, "O14.6", "RawAmmo")
 	P := c.P
 	loadAmmoUnbounded(P, c)
 	run := P.Func("components/providers/http/provider", "Provider", "Run")
